@@ -28,7 +28,7 @@ from vlib import gen
 from vlib.oracles import model as M
 
 ID = "C16"
-TECHNIQUE = "runtime monitoring: fields of LocusPrior.from_variant_record on generated haplotype records under every filter operator with thresholds textually equal to INFO values, and the records emitted by call-exact / call / call-pedigree run in-process with --prior-frequencies / --filter-input-haplotypes on generated BAM datasets; independent Decimal/Fraction oracle on the input text and independent VCF parser"
+TECHNIQUE = "runtime monitoring: fields of LocusPrior.from_variant_record on generated haplotype records under every filter operator with thresholds textually equal to INFO values, and the records emitted by call-exact / call / call-pedigree run in-process with --prior-frequencies / --filter-input-haplotypes on generated BAM datasets; independent Decimal/Fraction oracle on the input text and independent VCF parser; the exact-caller functions driven with each generated locus's own haplotypes / frequencies and reads favouring a dead allele (posterior must be exactly 0, inbreeding 0 and > 0)"
 LEVEL = "exploration"
 LEVEL_TEXT = (
     "Exploration: on generated haplotype records (0-6 ALT haplotypes; R-length Float, A-length Float, A-length Integer and R-length "
@@ -54,6 +54,7 @@ RULE = (
     "(program, haplotype VCF, frequency tag, filter string); non-trivial = a filter or frequency tag is given and the record has at "
     "least one ALT; distinct by hash of (record text, options, program)"
 )
+LEVEL_TEXT += " Program runs cycle through no / scalar / per-sample-file --inbreeding; the exact-caller functions were driven with each generated locus's own haplotypes and frequencies and 150 copies of a read matching every dead allele: posterior exactly 0, for inbreeding 0, 0.1 and 0.5."
 ASSUMPTIONS = [
     "NOA is demanded when no unmasked allele is retained, AF0 when unmasked alleles are retained but their named frequencies are all zero (the header descriptions of the two filters)",
     "a usable record must not carry NOA/AF0",
